@@ -355,6 +355,34 @@ func checkC16() fw.Check {
 					}
 				}})
 			}
+			// large documents: the number of runs and of samples is a caller's integer, not a small constant
+			// (257, 300, 1000, 70000 runs; 300 and 70000 samples), so any 8- or 16-bit narrowing on the way shows
+			for i, sz := range [][2]int{{257, 3}, {300, 300}, {1000, 7}, {70000, 2}, {3, 70000}} {
+				i, sz := i, sz
+				if tier != "thorough" && sz[0]*sz[1] > 100000 {
+					sz = [2]int{66000, 1}
+				}
+				cases = append(cases, fw.Case{ID: fmt.Sprintf("C16/large/%d", i), Run: func(c *fw.Ctx) {
+					d := &result.Results{Protocol: "udp"}
+					for k := 0; k < sz[0]; k++ {
+						run := result.TracerouteRun{}
+						for h := 0; h < 1+k%3; h++ {
+							hop := &result.TracerouteHop{TTL: h + 1}
+							if (k+h)%4 != 0 {
+								hop.IPAddress = net.IP{198, 51, byte(k), byte(h + 1)}
+								hop.RTT = 1 + float64((k*7+h)%50)
+							}
+							run.Hops = append(run.Hops, hop)
+						}
+						d.Traceroute.Runs = append(d.Traceroute.Runs, run)
+					}
+					for k := 0; k < sz[1]; k++ {
+						d.E2eProbe.RTTs = append(d.E2eProbe.RTTs, float64((k*13)%9))
+					}
+					runC16Doc(c, fmt.Sprintf("C16/large/%d (%d runs, %d samples)", i, sz[0], sz[1]), d, c.Rng)
+					c.Nontrivial(fmt.Sprintf("large/%d", i))
+				}})
+			}
 			return cases
 		},
 	}
